@@ -299,6 +299,34 @@ fn fixture_static<D: Distance>(f: &Fixture) -> Result<(), Fail> {
                 if let Err(e) = forest::check_structure(&idx, metric, fi.dims, &expected) {
                     return Err(Fail::Infra(format!("golden fixture fails my walker: {e}")));
                 }
+                // routing on the golden bytes: the current reader must send a stored vector to the side the
+                // reference layout says it is stored on (a left/right or child-order drift shows here)
+                let ms = match forest::check_margins(&idx, metric) {
+                    Ok(ms) => ms,
+                    Err(e) => return Err(Fail::Infra(format!("golden fixture fails my placement oracle: {e}"))),
+                };
+                {
+                    let isp = IndexSpec { index: fi.index, dims: fi.dims, class: ValueClass::Uniform, ids: vec![0] };
+                    let model = IndexModel {
+                        items: fi.items.iter().map(|(k, v)| (*k, from_bits(v))).collect(),
+                        built: true,
+                        stale: false,
+                        prev_trees: 0,
+                        trees_before: 0,
+                        constant_cap: None,
+                        builds: 1,
+                        incremental_touch_since_first_build: false,
+                        incremental_ids: BTreeSet::new(),
+                    };
+                    let mut st = CaseStats::default();
+                    match crate::queries::check_self_lookup(&reader, &rtxn, &isp, &model, &ms, &mut st) {
+                        Ok(()) => {}
+                        Err(Fail::Violation(v)) => {
+                            return violation("fixture:routing", format!("{metric:?} index {}: on the golden database {}", fi.index, v.message))
+                        }
+                        Err(e) => return Err(e),
+                    }
+                }
                 for q in f.queries.iter().filter(|q| q.index == fi.index) {
                     let qv = from_bits(&q.vector_bits);
                     let kmax = std::num::NonZeroUsize::new(usize::MAX).unwrap();
@@ -593,7 +621,8 @@ pub fn run_c16(tier: Tier) -> i32 {
         other => return report.finish(other),
     }
     // check 2
-    let cfg = RunCfg { format_roundtrip: true, structure: true, ..Default::default() };
+    // margins: the side of every item under every plane, as the *reference* decoder reads left/right
+    let cfg = RunCfg { format_roundtrip: true, structure: true, margins: true, ..Default::default() };
     let g = GenCfg { abort_pct: 0, ..GenCfg::small() };
     let out = run_generated(
         "C16-roundtrip",
@@ -631,7 +660,7 @@ pub fn replay(engine: &str, case: &serde_json::Value) -> Option<Result<(), Fail>
                 Ok(c) => c,
                 Err(e) => return Some(Err(Fail::Infra(format!("bad case: {e}")))),
             };
-            let cfg = RunCfg { format_roundtrip: true, structure: true, ..Default::default() };
+            let cfg = RunCfg { format_roundtrip: true, structure: true, margins: true, ..Default::default() };
             let mut st = CaseStats::default();
             Some(exec_history(&spec, &cfg, &mut st))
         }
